@@ -27,6 +27,7 @@ func generalOps() []string {
 		"kill", "killQueue", "addDrain", "removeDrain", "terminate", "cancelTerminate",
 		"advance", "advance", "advanceSmall", "tick",
 		"parkSend", "releaseSend", "releaseSend", "waitParked", "killParked", "releaseAuth", "releaseAuth",
+		"raceTimer", "raceTimer", "raceCancel",
 	}
 }
 
@@ -71,6 +72,7 @@ func TestC02WaitersGetOneFaithfulResult(t *testing.T) {
 		"kill", "kill", "cancelSync",
 		"advance", "advance", "advance", "advanceSmall", "tick",
 		"parkSend", "parkSend", "releaseSend", "releaseSend", "waitParked", "killParked", "releaseAuth", "releaseAuth",
+		"raceTimer", "raceTimer", "raceCancel",
 	}
 	p := &profile{
 		name: "C02", ops: ops, minSteps: 5, maxSteps: 60, instances: []string{""},
@@ -181,6 +183,7 @@ func TestC06TimeoutsWakeupsNoLeaks(t *testing.T) {
 		"terminate", "cancelTerminate", "kill",
 		"advance", "advance", "advance", "advance", "advanceSmall", "tick",
 		"parkSend", "releaseSend", "waitParked", "killParked", "releaseAuth", "releaseAuth",
+		"raceTimer", "raceTimer", "raceTimer", "raceCancel",
 	}
 	p := &profile{
 		name: "C06", ops: ops, minSteps: 5, maxSteps: 70, instances: []string{"", "a"},
